@@ -249,8 +249,43 @@ type callResult struct {
 	stacks   string
 }
 
-func (f *fixture) issue(kind string, event int32, tag string) (proto.Message, error) {
-	ctx := context.Background()
+type ctxKeyA struct{}
+type ctxKeyB string
+
+// callerContext builds the context the runtime (the caller of the adaptation) passes in. None of
+// them ever ends a request: deadlines lie far beyond every bound of a case (30..60 s), the
+// cancellable ones are cancelled only after the call has returned. Kinds: "" / "background",
+// "deadline", "values", "cancel", "values+deadline", "cancel+deadline".
+func callerContext(kind string, deadlineS int) (context.Context, context.CancelFunc) {
+	ctx, cancel := context.Background(), context.CancelFunc(func() {})
+	if deadlineS < 30 {
+		deadlineS = 30
+	}
+	if deadlineS > 3600 {
+		deadlineS = 3600
+	}
+	if strings.Contains(kind, "values") {
+		ctx = context.WithValue(ctx, ctxKeyA{}, "c07")
+		ctx = context.WithValue(ctx, ctxKeyB("deadline"), time.Now().Add(-time.Hour)) // a value, not a deadline
+	}
+	if strings.Contains(kind, "cancel") {
+		ctx, cancel = context.WithCancel(ctx)
+	}
+	if strings.Contains(kind, "deadline") {
+		c1 := cancel
+		var c2 context.CancelFunc
+		ctx, c2 = context.WithDeadline(ctx, time.Now().Add(time.Duration(deadlineS)*time.Second))
+		cancel = func() { c2(); c1() }
+	}
+	if strings.Contains(kind, "values") {
+		ctx = context.WithValue(ctx, ctxKeyB("request"), kind)
+	}
+	return ctx, cancel
+}
+
+func (f *fixture) issue(cx string, kind string, event int32, tag string) (proto.Message, error) {
+	ctx, cancel := callerContext(cx, f.c.CtxDeadlineS)
+	defer cancel()
 	a := f.rt.A
 	switch kind {
 	case "create":
@@ -316,7 +351,7 @@ func allStacks() string {
 
 // call issues a request and waits for it at most bound. A call that is still running then has
 // its goroutine stacks recorded; the hanging handlers are released so that it can unwind.
-func (f *fixture) call(kind string, event int32, tag string, bound time.Duration) callResult {
+func (f *fixture) call(cx string, kind string, event int32, tag string, bound time.Duration) callResult {
 	type out struct {
 		m   proto.Message
 		err error
@@ -325,7 +360,7 @@ func (f *fixture) call(kind string, event int32, tag string, bound time.Duration
 	done := make(chan out, 1)
 	start := time.Now()
 	go func() {
-		m, err := f.issue(kind, event, tag)
+		m, err := f.issue(cx, kind, event, tag)
 		done <- out{m, err, time.Since(start)}
 	}()
 	select {
@@ -535,6 +570,13 @@ func validate(c C07Case) string {
 			return "unknown request kind"
 		}
 	}
+	for _, k := range []string{c.Ctx, c.FollowCtx} {
+		switch k {
+		case "", "background", "deadline", "values", "cancel", "values+deadline", "cancel+deadline":
+		default:
+			return "unknown caller context"
+		}
+	}
 	okEv := func(e int32) bool { _, ok := eventNames[e]; return ok }
 	if (c.Req == "event" && !okEv(c.Event)) || (c.Follow == "event" && !okEv(c.FollowEvent)) {
 		return "unknown event"
@@ -664,6 +706,7 @@ func runOnce(c C07Case) (v verdict) {
 	if nfaults == 0 {
 		v.classes = append(v.classes, "first-fault:none")
 	}
+	v.classes = append(v.classes, "ctx:"+ctxName(c.Ctx), "follow-ctx:"+ctxName(c.FollowCtx))
 	v.classes = append(v.classes, "req:"+c.Req, "follow:"+c.Follow, fmt.Sprintf("faults:%d", nfaults), fmt.Sprintf("plugins:%d", n))
 	if c.Req == "event" {
 		v.classes = append(v.classes, "event:"+eventNames[c.Event])
@@ -715,7 +758,7 @@ func runOnce(c C07Case) (v verdict) {
 	// --- the request
 	bound := time.Duration(n)*ReqTimeout + slack
 	mainStart := time.Since(f.t0)
-	res := f.call(c.Req, c.Event, mainTag, bound)
+	res := f.call(c.Ctx, c.Req, c.Event, mainTag, bound)
 	verifhook.Set(nil)
 	for _, pl := range f.plugs {
 		if pl.armed {
@@ -988,7 +1031,7 @@ func runOnce(c C07Case) (v verdict) {
 	}
 
 	// --- clause 2 / 4b: the follow-up request
-	fres := f.call(c.Follow, c.FollowEvent, followTag, bound)
+	fres := f.call(c.FollowCtx, c.Follow, c.FollowEvent, followTag, bound)
 	hist["follow_dur_ns"], hist["follow_err"] = fres.dur, fmt.Sprint(fres.err)
 	if fres.timedOut {
 		stuck = fres.stuck
@@ -1082,6 +1125,13 @@ func partialFrame(k int) []byte {
 	// a ttRPC request header for 54 bytes on stream 1, then filler
 	copy(body, ttrpcMsg(54, 1, 1, 0, nil))
 	return frame(2, body)[:k]
+}
+
+func ctxName(k string) string {
+	if k == "" {
+		return "background"
+	}
+	return k
 }
 
 func errFormOf(ft Fault) string {
